@@ -67,11 +67,19 @@ fn scenario(ctx: &Ctx, idx: u64) -> Report {
         // larger one (no re-bootstrap except after outages).
         let world_size = if rng.gen_bool(0.75) { rng.gen_range(1..9) } else { rng.gen_range(12..40) };
         let ids = world_ids(&mut rng, world_size, &id, 0.3);
-        let nodes: Vec<WNode> = ids
+        let mut nodes: Vec<WNode> = ids
             .into_iter()
             .enumerate()
             .map(|(i, wid)| WNode::new(wid, world_addr(v6, i as u32)))
             .collect();
+        // some nodes never answer: bootstrap rounds then end by the worker's own timeouts
+        if world_size > 1 && rng.gen_bool(0.4) {
+            for n in nodes.iter_mut().skip(1) {
+                if rng.gen_bool(0.4) {
+                    n.silent_from = 0;
+                }
+            }
+        }
         let contacts: Vec<_> = nodes.iter().take(rng.gen_range(1..=world_size.min(8))).map(|n| n.addr).collect();
         let owned: HashSet<_> = nodes.iter().map(|n| n.addr).collect();
         let all_addrs: Vec<SocketAddr> = nodes.iter().map(|n| n.addr).collect();
@@ -119,6 +127,9 @@ fn scenario(ctx: &Ctx, idx: u64) -> Report {
         // run while the handler is in the middle of a refresh round or a search
         let yield_p = *[0.0, 0.0, 0.2, 1.0].choose(&mut rng).unwrap();
         net.set_send_yield(yield_p);
+        // sends that return late: the handler stays suspended in a send while deadlines pass
+        let linger = *[(0.0, 0), (0.0, 0), (0.3, 50 * MS), (1.0, 5 * MS), (1.0, 400 * MS)].choose(&mut rng).unwrap();
+        net.set_send_linger(linger.0, linger.1);
 
         let mut cfg = NodeCfg::new(addr);
         cfg.id = Some(id);
